@@ -5,8 +5,8 @@ import (
 	"go/ast"
 	"go/constant"
 	"go/token"
-	"math/big"
 	"go/types"
+	"math/big"
 	"os"
 	"sort"
 	"strings"
@@ -17,20 +17,21 @@ import (
 )
 
 type Verifier struct {
-	repo    string
-	verif   string
-	cs      *Contracts
-	prog    *ssa.Program
-	fset    *token.FileSet
-	funcs   map[string]*ssa.Function
-	pkgs    []*packages.Package
-	epoch   int
-	tids    map[string]int
-	noEff   map[string]bool
-	modMemo map[*ssa.Function]*modSet
-	known   *KnownFile
-	prop    string
-	immut   map[*ssa.Global]bool
+	repo     string
+	verif    string
+	cs       *Contracts
+	prog     *ssa.Program
+	fset     *token.FileSet
+	funcs    map[string]*ssa.Function
+	pkgs     []*packages.Package
+	epoch    int
+	tids     map[string]int
+	noEff    map[string]bool
+	modMemo  map[*ssa.Function]*modSet
+	known    *KnownFile
+	prop     string
+	immut    map[*ssa.Global]bool
+	sentMemo map[*ssa.Global]bool
 }
 
 func (v *Verifier) nextEpoch() int { v.epoch++; return v.epoch }
@@ -66,7 +67,7 @@ func (v *Verifier) isNoEffect(name string) bool {
 }
 
 func loadVerifier(repo, verif string, patterns []string) (*Verifier, error) {
-	v := &Verifier{repo: repo, verif: verif, tids: map[string]int{}, noEff: map[string]bool{}, modMemo: map[*ssa.Function]*modSet{}, immut: map[*ssa.Global]bool{}}
+	v := &Verifier{repo: repo, verif: verif, tids: map[string]int{}, noEff: map[string]bool{}, modMemo: map[*ssa.Function]*modSet{}, immut: map[*ssa.Global]bool{}, sentMemo: map[*ssa.Global]bool{}}
 	cs, err := loadAllContracts(verif, repo)
 	if err != nil {
 		return nil, err
@@ -313,6 +314,26 @@ func (v *Verifier) callMods(fx *fnExec, c *ssa.CallCommon, ms *modSet, local boo
 		return
 	}
 	ms.all = true
+	v.opaqueGhostMods(c, ms)
+}
+
+// opaqueGhostMods: a callee without body or contract that receives anything but plain data (a reader, a closure, an
+// opaque object) may drive the modelled environment: the shared ghost variables (e.g. stream_fault) are unknown after it.
+func (v *Verifier) opaqueGhostMods(c *ssa.CallCommon, ms *modSet) {
+	plain := !c.IsInvoke()
+	if _, isFn := c.Value.(*ssa.Function); !isFn && !c.IsInvoke() {
+		plain = false // call through a function value
+	}
+	for _, a := range c.Args {
+		if !plainData(a.Type(), 0) {
+			plain = false
+		}
+	}
+	if !plain {
+		for g := range v.cs.Ghosts {
+			ms.ghosts[g] = true
+		}
+	}
 }
 
 func (v *Verifier) inferMods(fn *ssa.Function, ms *modSet, seen map[*ssa.Function]bool) {
@@ -467,7 +488,10 @@ func (v *Verifier) globalImmutable(g *ssa.Global) bool {
 		return false
 	}
 	for fn := range ssautil.AllFunctions(v.prog) {
-		if fn.Pkg != g.Pkg || fn.Name() == "init" {
+		if fn.Pkg == g.Pkg && fn.Name() == "init" {
+			continue
+		}
+		if fn.Pkg != g.Pkg && !g.Object().Exported() {
 			continue
 		}
 		for _, b := range fn.Blocks {
@@ -642,4 +666,61 @@ func (v *Verifier) sliceGlobalReadOnly(g *ssa.Global) bool {
 	}
 	v.immut[g] = res
 	return res
+}
+
+// errSentinel: g is a package-level variable of type error that the package initialiser sets once to the result of
+// errors.New / fmt.Errorf and that no function of the program stores to afterwards.
+func (v *Verifier) errSentinel(g *ssa.Global) bool {
+	if g.Pkg == nil || g.Object() == nil {
+		return false
+	}
+	if r, ok := v.sentMemo[g]; ok {
+		return r
+	}
+	res := false
+	et := g.Type().(*types.Pointer).Elem()
+	if types.Identical(et, types.Universe.Lookup("error").Type()) && v.globalImmutable(g) {
+		if init := g.Pkg.Func("init"); init != nil {
+			n := 0
+			okInit := true
+			for _, b := range init.Blocks {
+				for _, in := range b.Instrs {
+					st, isSt := in.(*ssa.Store)
+					if !isSt || st.Addr != g {
+						continue
+					}
+					n++
+					val := st.Val
+					if mi, isMI := val.(*ssa.MakeInterface); isMI {
+						val = mi.X
+					}
+					c, isCall := val.(*ssa.Call)
+					if !isCall || c.Call.StaticCallee() == nil {
+						okInit = false
+						continue
+					}
+					switch c.Call.StaticCallee().String() {
+					case "errors.New", "fmt.Errorf":
+					default:
+						okInit = false
+					}
+				}
+			}
+			res = okInit && n == 1
+		}
+	}
+	v.sentMemo[g] = res
+	return res
+}
+
+func (v *Verifier) sentinelByName(pkg, name string) *ssa.Global {
+	for _, p := range v.prog.AllPackages() {
+		if p.Pkg.Name() != pkg {
+			continue
+		}
+		if g, ok := p.Members[name].(*ssa.Global); ok && v.errSentinel(g) {
+			return g
+		}
+	}
+	return nil
 }
